@@ -86,12 +86,18 @@ func (w *psWorld) install() func() {
 				}
 				var fp *fakeProc
 				j := 0
-				script.Answer = func(req *conformancev1.ClientCompatRequest) *conformancev1.ClientCompatResponse {
+				index := map[*conformancev1.ClientCompatRequest]int{}
+				script.OnReceive = func(req *conformancev1.ClientCompatRequest) {
 					w.mu.Lock()
 					w.seq++
 					w.recvs = append(w.recvs, psRecv{seq: w.seq, clientKind: kind, req: req, live: w.liveLocked()})
-					jj := j
+					index[req] = j
 					j++
+					w.mu.Unlock()
+				}
+				script.Answer = func(req *conformancev1.ClientCompatRequest) *conformancev1.ClientCompatResponse {
+					w.mu.Lock()
+					jj := index[req]
 					w.mu.Unlock()
 					if w.answer != nil {
 						return w.answer(kind, jj, req)
